@@ -14,6 +14,7 @@ Deciding steps (model checking):
 from __future__ import annotations
 
 import asyncio
+import errno
 import hashlib
 import itertools
 import json
@@ -437,10 +438,13 @@ def run_schedule(pair, schedule, d):
         os.unlink(os.path.join(d, f))
     with open(path, "w", encoding="utf-8", newline="") as f:
         f.write(START)
+    fine = pair[-1] == "fine"        # every in-scope call is a scheduling point, not only those on the target (checks the assumption
+    if fine:                         # behind the coarse graphs: writers never share a temp file)
+        pair = pair[:-1]
     n = len(pair)
     R = range(n)
     bases = {"": sha(START), "nobase": None, "stale": sha("something else\n")}
-    ws = [shim.Stepper(writer_fn(_kind(pair[i])[0], path, bases[_kind(pair[i])[1]], W_TEXT[i] if _kind(pair[i])[0] in ("content", "atomic") else f"w{i}"), d, path) for i in R]
+    ws = [shim.Stepper(writer_fn(_kind(pair[i])[0], path, bases[_kind(pair[i])[1]], W_TEXT[i] if _kind(pair[i])[0] in ("content", "atomic") else f"w{i}"), d, path, fine=fine) for i in R]
     waiting = [False] * n      # blocked on the CAS lock with no progress of any other writer since
     try:
         for w in ws:
@@ -494,6 +498,7 @@ def install_order(info, schedule):
 def judge_final(pair, info, target, schedule=None):
     out = []
     res = info["results"]
+    pair = [k for k in pair if k != "fine"]
     n = len(res)
     R = range(n)
     flags = [_kind(k)[1] for k in pair]
@@ -557,6 +562,7 @@ def check_pair(case) -> Res:
     executions = 0
     viol = {}
     finals = set()
+    shared = set()
     while stack:
         sched = stack.pop()
         key, enabled, info = run_schedule(pair, sched, d)
@@ -569,6 +575,11 @@ def check_pair(case) -> Res:
             for desc, obs, exp in judge_final(pair, info, target, sched):
                 k = f"schedule:{'+'.join(pair)}:{desc}"
                 viol.setdefault(k, dict(descriptor=k, case=dict(pair=list(pair), schedule=sched), observed=obs, expected=exp))
+            # the coarse graph treats a writer's private files as invisible: sound only while no two writers name the same file
+            names = [{x["path"] for x in (lg or []) if x.get("path") and x["path"] not in (target, d) and not x["path"].startswith("fd")} for lg in (info["logs"] or [])]
+            for i in range(len(names)):
+                for j in range(i + 1, len(names)):
+                    shared |= names[i] & names[j]
             continue
         if not enabled:
             k = f"schedule:{'+'.join(pair)}:deadlock"
@@ -577,8 +588,19 @@ def check_pair(case) -> Res:
         for w in enabled:
             transitions += 1
             stack.append(sched + [w])
-    return Res("ok" if not viol else "violations", nontrivial=None, extra_nontrivial=[("sched-state", pair, k) for k in seen] + [("final", pair, f) for f in finals],
-               violations=list(viol.values()), transitions=executions), len(seen), transitions, sorted(finals)
+    res = Res("ok" if not viol else "violations", nontrivial=None, extra_nontrivial=[("sched-state", pair, k) for k in seen] + [("final", pair, f) for f in finals],
+              violations=list(viol.values()), transitions=executions)
+    n_seen = len(seen)
+    if shared and pair[-1] != "fine" and len(pair) == 2:
+        # assumption broken (a temp file name is shared): explore the same group again with EVERY in-scope call as a scheduling point
+        r2, n2, t2, f2 = check_pair(list(pair) + ["fine"])
+        res.violations += r2.violations
+        res.extra_nontrivial += r2.extra_nontrivial + [("escalated-to-fine", pair, tuple(sorted(os.path.basename(x) for x in shared)))]
+        res.transitions += r2.transitions
+        res.outcome = "ok" if not res.violations else "violations"
+        n_seen += n2
+        transitions += t2
+    return res, n_seen, transitions, sorted(finals)
 
 
 def check_pair_res(case):
@@ -683,6 +705,57 @@ def check_external_edit(case) -> Res:
     return Res("ok" if not viol else "violations", extra_nontrivial=outs, violations=list(viol.values()), transitions=n)
 
 
+# ------------------------------------------------------------------ (e) calls that fail because an I/O step fails
+def check_faulted(case) -> Res:
+    """"every call that returns status=error for whatever reason leaves the file system exactly as it was": one CAS write per (entry, kind);
+    every in-scope call boundary of the tree under test x errno fails once; whenever the envelope says error the sandbox tree (paths,
+    bytes, mode) must equal the tree before the call, and the SAME request repeated without a fault (same base_hash) must then succeed -
+    a refused retry means the failed call did install something."""
+    from . import c16
+    entry, kind, base = case
+    sc = dict(entry=entry, kind=kind, base=base, parent="present", fmode=0o644)
+    c16._root()
+    sb, target, prev, pmode = c16.prepare(sc)
+    before = c16.snapshot(sb, target)
+    ref = shim.run_child(c16.make_call(sc, target, prev), sb, target)
+    if ref["raised"] or not isinstance(ref["result"], dict) or ref["result"].get("status") != "success":
+        return Res("reference-failed", violations=[dict(descriptor="faulted:fault-free-run-failed", case=dict(scenario=sc), observed=str(ref["raised"] or ref["result"])[:200], expected="success")])
+    N = len([e for e in ref["log"] if e["k"] >= 0])
+    viol = {}
+    outs = []
+    n = 1
+    for k in range(N + 4):          # the faulted run may issue calls the fault-free run never reaches
+        seen_sig = set()
+        for e1 in (errno.EIO, errno.EACCES, errno.ENOSPC, errno.EINVAL):
+            sb, target, prev2, pm2 = c16.prepare(sc)
+            r = shim.run_child(c16.make_call(sc, target, prev2), sb, target, mode=shim.LOG | shim.FAIL, fail_k=k, fail_errno=e1)
+            n += 1
+            snap = c16.snapshot(sb, target)
+            res = r["result"] if isinstance(r["result"], dict) else {}
+            st = res.get("status")
+            cs = dict(scenario=sc, fail_k=k, errno=errno.errorcode.get(e1, e1))
+            op = next((x["op"] for x in r["log"] if x["k"] == k), None)
+            outs.append((entry, kind, base, k, e1, st, op))
+            if op is None:
+                break
+            if r["raised"]:
+                viol.setdefault("raised", dict(descriptor=f"faulted:{entry}:{kind}:call-raised", case=cs, observed=r["raised"][:200], expected="an envelope"))
+                continue
+            if st == "error":
+                if snap["files"] != before["files"] or snap["target_mode"] != before["target_mode"]:
+                    diff = sorted(set(snap["files"].items()) ^ set(before["files"].items()))[:3]
+                    viol.setdefault("changed", dict(descriptor=f"faulted:{entry}:{kind}:error-returned-but-file-system-changed:{op}", case=cs,
+                                                    observed=f"after failing {op} (call {k}): {diff!r}"[:400], expected="file system exactly as it was"))
+                # retry of the same request on what the failed call left behind
+                r2 = shim.run_child(c16.make_call(sc, target, prev2), sb, target)
+                n += 1
+                st2 = (r2["result"] or {}).get("status") if isinstance(r2["result"], dict) else None
+                if st2 != "success":
+                    viol.setdefault("retry", dict(descriptor=f"faulted:{entry}:{kind}:retry-with-the-same-base_hash-refused-after-a-failed-call:{op}", case=cs,
+                                                  observed=f"first: {str(res)[:150]} retry: {str(r2['result'])[:200]}", expected="success (the failed call changed nothing)"))
+    return Res("ok" if not viol else "violations", extra_nontrivial=outs, violations=list(viol.values()), transitions=n)
+
+
 def run(ctx):
     depth = 4 if ctx.quick else 6
     # (a) run in the parent (small) so that the state/transition counts are measured exactly
@@ -708,13 +781,16 @@ def run(ctx):
     kinds = ["dry_content", "dry_content_lenient", "dry_changes", "dry_normalize", "stale_content", "unparseable_content", "both_content_and_changes", "bad_extension", "changes_absent"]
     ctx.explore("dry_and_failed_calls.tree", [(k, l, ex) for k in kinds for l in ("present", "missing", "nested") for ex in (False, True)], check_tree_untouched, chunk=6)
     # (b) schedules
-    pairs = (PAIRS[:4] + MIXED[:3]) if ctx.quick else (PAIRS + MIXED + TRIPLES)      # a triple is ~19 k states / ~10 min on one core
+    FINE = [("atomic", "atomic", "fine")] if ctx.quick else [("atomic", "atomic", "fine"), ("content", "content", "fine"), ("content", "atomic:nobase", "fine")]
+    pairs = (PAIRS[:4] + MIXED[:3] + FINE) if ctx.quick else (TRIPLES + FINE + PAIRS + MIXED)      # a triple is ~19 k states / ~10 min on one core
     total_states = total_trans = 0
     finals_all = {}
     sts = ctx.explore("schedules.two_processes", [list(p) for p in pairs], check_pair_res, chunk=1)
     # (c) tasks
     ctx.explore("external_edit", Product(["tool", "atomic", "cli"], ["overwrite"], [False, True]) if ctx.quick else
                 Product(["tool", "atomic", "cli"], ["overwrite", "overwrite_big"], [False, True]), check_external_edit, chunk=1)
+    ctx.explore("faulted_calls", [("tool", "overwrite", "match"), ("tool", "changes", "match"), ("tool", "normalize", "match"), ("atomic", "overwrite", "match"), ("cli", "overwrite", None),
+                                  ("tool", "overwrite", None)], check_faulted, chunk=1)
     from . import c16 as _c16
     _c16._cleanup()
     ctx.explore("schedules.asyncio_tasks", [list(p) for p in PAIRS if "atomic" not in p], check_tasks, chunk=1)
@@ -733,6 +809,12 @@ def run(ctx):
 def replay(ctx, rp):
     c = rp["case"]
     try:
+        if "fail_k" in c:
+            from . import c16
+            try:
+                return [v for v in check_faulted((c["scenario"]["entry"], c["scenario"]["kind"], c["scenario"]["base"])).violations if v["descriptor"] == rp.get("descriptor")]
+            finally:
+                c16._cleanup()
         if "edit_before_call" in c:
             from . import c16
             try:
